@@ -16,6 +16,7 @@ REACH_N = 20
 DET_K = 3
 CASE_TIMEOUT = 600
 SELFTEST = {'quick': 8, 'thorough': 96}
+REQUIRED_PROBES = ['kind_pipeline', 'kind_equilibrium', 'chi_0', 'chi_1', 'kinetic_electrons', 'ntheta_even', 'ntheta_odd']
 RULE = ('case kinds: pipeline (85%) = random real (sometimes complex) density on (r,theta,z) with even or odd '
         'theta counts, chi in {0,1}, adiabatic or kinetic electrons, 1-3 process grids; the driver\'s sequence '
         'getModes -> setLayout(mode_solve) -> solveEquation -> setLayout(v_parallel_2d) -> findPotential with '
